@@ -248,7 +248,7 @@ def run(ctx) -> None:
            'FAILED_PRECONDITION maps to [] and anything else is re-raised', 3)
   ctx.rule('R4', 'raising events inside the acquire..release window are enumerated', 2)
   ctx.import_rules('C04', {'R2'}, 'R6', 'locks around the algorithm are released when it raises (with-blocks only, acyclic order)')
-  ctx.import_rules('C02', {'R3'}, 'R7', 'over-delivery: every surplus trial gets its own fresh id')
+  ctx.import_rules('C02', {'R3', 'R4', 'R5'}, 'R7', 'over-delivery: every surplus trial gets its own fresh id')
   ctx.import_rules('C01', {'R1', 'R2'}, 'R8', 'whatever the failure paths store still satisfies the trial lifecycle (handler bodies included)')
   ctx.rule('R9', 'no unbounded retry around the algorithm: every handler of a retry loop leaves the loop or is bounded by a counter', 1)
   ctx.rule('R10', 'nothing between the algorithm and the caller swallows its exception: handlers around algorithm calls '
